@@ -31,7 +31,7 @@ func (prop) ID() string { return "C17" }
 
 func nGen(tier string) int {
 	if tier == "thorough" {
-		return 10000
+		return 4000
 	}
 	return 300
 }
